@@ -457,7 +457,7 @@ def smt_queries(tier):
     if tier == "thorough":
         for m in (18, 20):
             q = triangular_query(m)
-            q["timeout"] = 1800
+            q["timeout"] = 600
             q["optional"] = True
             qs.append(q)
     return qs
